@@ -1,6 +1,6 @@
 """NL-*: blank-line limits and file-end newlines (src/newlines/blank_line.cpp, eat_start_end.cpp, can_increase_nl.cpp)."""
 TUS = ['chunk.cpp', 'unc_text.cpp', 'unicode.cpp', 'unc_ctype.cpp', 'newlines/can_increase_nl.cpp', 'ifdef_over_whole_file.cpp',
-       'newlines/is_func_proto_group.cpp', 'mark_change.cpp', '$BUILD/src/options.cpp']
+       'newlines/is_func_proto_group.cpp', 'mark_change.cpp', '$BUILD/src/options.cpp', '$HARNESS/chartable.cpp']
 NOLOGTEXT = ['_Z11encode_utf8iRSt9vp_vectorIhvE']
 COMMON = dict(harness='nl.cpp', extra_tus=TUS, havoc_options=True, noop=NOLOGTEXT, 
               assumptions=['chunk lists of K chunks built through the real API; kinds from the alphabet the code distinguishes; no two adjacent newline chunks '
@@ -37,10 +37,15 @@ OBLIGATIONS = [
     dict(COMMON, id='NL-EOF', entry='vp_nl_eof', instances=k_instances([1, 2, 3], [1, 2, 3, 4])),
     dict(COMMON, id='NL-BLSTEP', entry='vp_nl_blstep', instances=shape_instances),
 ]
+OBLIGATIONS.append(dict(COMMON, id='NL-CANINC', entry='vp_nl_caninc',
+                        instances=lambda tier: [dict(name=n, bound='list of shape [%s]; counts, parents, levels, flags and every option the closure reads symbolic' % sh,
+                                                     unwind=6, defs=dict(K=2, VP_KINDS=sh, VP_CAP_INT=4, VP_CAP_U8=8))
+                                                for (n, sh) in (('leading', 'CT_NEWLINE,CT_WORD'), ('trailing', 'CT_WORD,CT_NEWLINE'))]))
+import os as _os
 PROPERTIES = {
     # NL-BLSTEP (a full run of do_blank_lines) is defined above but NOT claimed: CBMC's symbolic execution of the
     # pointer-chasing list walks did not finish within the cap even for 2 chunks of concrete kinds (DESIGN.md, Corrections)
-    'C20': dict(obligations=['NL-MAX', 'NL-EOF'],
+    'C20': dict(obligations=['NL-MAX', 'NL-EOF', 'NL-CANINC'],
                 not_decided='do_blank_lines as a whole (the cap applied to every newline chunk; squeezing of the first/last newline that makes '
                             'nl_start_of_file=add exact) and the ~20 nl_before_/nl_after_ passes: not decidable within reach (list walks); '
                             'eat_blanks_* in newlines_cleanup_braces; the nl_max guard.'),
